@@ -18,7 +18,7 @@ def obligations(tier):
            "the silent setting given through parser_settings reaches the constructor on every call and the caller's dict is not modified (replay: two calls sharing one settings dict)"),
         Ob("C16.mode/unknown", "misc", "c_mode", {}, t, FN, "output_mode any string of length <= 4 outside the 15 names; script yields nothing / a sequence / a table (symbolic); group_by_type symbolic"),
         Ob("C16.mode/valid", "misc", "c_valid_mode", {}, t, FN, "each of the 15 documented names (symbolic index) x script yields nothing / a sequence / a table", api=False),
-    ] + lex_obs("C16", "c_case", ["alter_body", "alter_add"], tier, "supported-in-any-case")
+    ] + lex_obs("C16", "c_case", ["alter_body", "alter_add", "alter_drop", "alter_rename", "alter_modify"], tier, "supported-in-any-case")
 
 
 def solver_queries(tier, scratch):
